@@ -6,8 +6,8 @@ package chainlib
 
 import (
 	"bytes"
-	"errors"
 	"encoding/binary"
+	"errors"
 	"fmt"
 	"math/big"
 	"strings"
